@@ -11,6 +11,10 @@
             left), and __nega_kv maps every operator the parser can produce to one with the complementary accept set
  RF6-own    every rewrite of __dnf leaves a tree: no node is reachable through two parent slots (symbolic execution of
             the pointer assignments of each branch), because free_dexpr releases every slot
+ RF2-expr   all 5,394 expression trees with up to four atoms (every bracketing, && / || at every inner node, a negation flag at
+            every node) are built as heap cells as the parser builds them, normalised by dexpr_simplify and evaluated by
+            dexpr_matches_p -- src/dexpr.c folded as it stands -- on dates realising all 16 truth combinations of the atoms:
+            ordinary Boolean semantics of the tree as written
  RF-rewrite every rewrite of __dnf keeps the Boolean function: the routine is executed symbolically on all 72 trees with a
             conjunction / disjunction root over value, opaque-conjunction and two-leaf-disjunction children (recursive calls
             summarised by their contract: meaning kept, a conjunction may come back as a disjunction), truth tables compared
@@ -775,6 +779,9 @@ def check_rewrites(P, R):
 
 
 def check(P, R, tier):
+    import exprdecode
+    nx = exprdecode.run_parallel(R, P, "RF2-expr", maxatoms=4, jobs=14)
+    R.floor("RF2-expr", "decoded (expression tree, date) points", nx, 80000)
     check_rewrites(P, R)
     check_kv(P, R)
     check_eval(P, R)
